@@ -242,7 +242,7 @@ def main():
             elif K:
                 msg, (snd, rcp) = complete[0]
                 pre = expected_received(c, None, b"QMQP")
-                mr = [] if w[2] == "-" else [vlib.unhx(x) for x in w[2].split("+")]
+                mr = [] if w[2] == "-" else [(b"" if x == "=" else vlib.unhx(x)) for x in w[2].split("+")]
                 if not msg.startswith(pre) or msg[len(pre):].split(b"\n", 1)[1] != vlib.unhx(w[0]) or snd != vlib.unhx(w[1]) or rcp != mr:
                     bad = "ack:queued-message-differs"
         elif not bad and not wellformed and replies: mism.append(obj)
